@@ -26,8 +26,8 @@ PROPS = {
                 watchdog={"quick": 1200, "thorough": 7200}),
     "C12": dict(engine="exchmon", race=True, level="fault_enumeration", design="C12",
                 technique="logical deadline monitor at a harness-owned transport.Conn + silent-peer arms confirmed by outcome",
-                text="213 cells enumerated completely: entry point (ClientExchange.Run perm/temp; mtproto.Conn.Run without PFS, with PFS (both exchanges), regeneration after transport -404) x caller "
-                     "context (no deadline, far deadline, near deadline) x silent peer at resPQ / server_DH_params / dh_gen, also preceded by 1/2/5 transport -404 frames (skipped and re-read at resPQ) or a -429 frame. For every Send/Recv of the client flow the context deadline is recorded: "
+                text="305 cells enumerated completely: entry point (ClientExchange.Run perm/temp; mtproto.Conn.Run without PFS, with PFS (both exchanges), regeneration after transport -404) x caller "
+                     "context (no deadline, far deadline, near deadline) x silent peer at resPQ / server_DH_params / dh_gen, also preceded by 1/2/5 transport -404 frames (skipped and re-read at resPQ) or a -429 frame, and with the exchanger / connection clock skewed by +30 s, +10 min, +24 h, -10 min against host time (the oracle compares with host time). For every Send/Recv of the client flow the context deadline is recorded: "
                      "no deadline, or deadline - call time > exchange timeout, refutes. Stalled runs judged bounded must end by themselves with an error; runs judged unbounded are shown still "
                      "pending after 6 exchange timeouts and then released.",
                 note="The fake transport honours exactly the context deadline, like transport.connection (SetRead/WriteDeadline), not cancellation. Dial timeout (6 h) is set far above the exchange "
